@@ -107,6 +107,19 @@ func (w *jWorld) genDep(ch choose.Chooser, origNet uint32) srcDep {
 	s := w.nextSeq()
 	d := srcDep{LeafType: uint8(ch.Int(0, 1, "leafType")), OrigNet: origNet, OrigAddr: common.BytesToAddress([]byte{0x0a, byte(s)}),
 		DestNet: jNetID, DestAddr: common.BytesToAddress([]byte{0x0d, byte(s >> 8), byte(s)})}
+	// the bridged token may originate from any network, and the same token address exists on several networks (a token
+	// deployed at one address on L1 and on a rollup; the zero address is the native token of every network)
+	switch ch.Int(0, 4, "origNetKind") {
+	case 1:
+		d.OrigNet = 0
+	case 2:
+		d.OrigNet = 2
+	case 3:
+		d.OrigNet = 1<<32 - 1
+	}
+	if ch.Int(0, 1, "sharedTokenAddress") == 0 {
+		d.OrigAddr = []common.Address{{}, common.BytesToAddress([]byte{0x0a, 0xaa}), common.BytesToAddress([]byte{0x0a, 0xbb})}[ch.Int(0, 2, "tokenAddr")]
+	}
 	switch ch.Int(0, 4, "amountKind") {
 	case 0:
 		d.Amount = big.NewInt(0)
